@@ -280,6 +280,24 @@ def comparator_spec(F):
             out.append({"kind": "field", "field": lf[-1], "field_b": rf[-1], "op": op, "sign": sign, "node": ifs})
         else:
             out.append({"kind": "other", "text": c.text(), "sign": sign, "node": ifs})
+    # return (A->f OP B->f) ? c1 : c2;
+    for rs_ in F.body.find("ReturnStmt"):
+        if not rs_.kids:
+            continue
+        e = rs_.kids[0].strip(casts=True)
+        if e.k != "ConditionalOperator":
+            continue
+        c = e.child("cond").strip(casts=True)
+        v1, v2 = const_value(e.child("then")), const_value(e.child("else"))
+        if c.k != "BinaryOperator" or c.d["op"] not in flip or v1 is None or v2 is None:
+            continue
+        l, r = c.kids
+        ls, rs = side(l), side(r)
+        lf = [m.d["field"] for m in l.find("MemberExpr")]
+        rf = [m.d["field"] for m in r.find("MemberExpr")]
+        if ls is not None and rs is not None and ls != rs and lf and rf:
+            op = c.d["op"] if ls == 0 else flip[c.d["op"]]
+            out.append({"kind": "field", "field": lf[-1], "field_b": rf[-1], "op": op, "sign": (v1 > 0) - (v1 < 0), "node": rs_})
     return out
 
 
